@@ -4,7 +4,7 @@ from __future__ import annotations
 import json
 import re
 import sys
-from datetime import datetime
+from datetime import datetime, timedelta
 from fractions import Fraction
 from functools import partial
 from pathlib import Path
@@ -25,7 +25,7 @@ def cases(run: Run):
         dt = rng.choice([60, 60, 30, 300, 37.5, 7.5, 120])
         N = rng.randint(4, 9)
         span = dt * N
-        kind = rng.choice(["inside", "span", "start-aligned", "end-aligned", "both-aligned", "short", "generic"])
+        kind = rng.choice(["inside", "span", "start-aligned", "end-aligned", "both-aligned", "short", "generic", "pre-epoch"])
         if kind == "inside":
             k = rng.randint(1, N - 1)
             s = k * dt + rng.uniform(0.1, 0.4) * dt
@@ -42,13 +42,17 @@ def cases(run: Run):
         elif kind == "both-aligned":
             s = rng.randint(1, N - 2) * dt
             e = s + rng.randint(1, 2) * dt
+        elif kind == "pre-epoch":
+            # the thrust is already under way when the scenario starts
+            s = -rng.uniform(1.0, 3 * dt)
+            e = rng.uniform(0.3, 2.5) * dt
         elif kind == "short":
             s = rng.randint(1, N - 1) * dt + rng.uniform(0.05, 0.9) * dt
             e = s + rng.choice([0.5, 1.5, 3.0])
         else:
             s = rng.uniform(dt * 0.5, span * 0.6)
             e = s + rng.uniform(5.0, span * 0.35)
-        s, e = round(max(s, 1.0) * 64) / 64, round(min(e, span - 1.0) * 64) / 64
+        s, e = round((s if kind == "pre-epoch" else max(s, 1.0)) * 64) / 64, round(min(e, span - 1.0) * 64) / 64
         if e - s < 0.25:
             e = s + 0.5
         thrust = rng.choice(["eci", "ntw", "spiral", "plane"])
@@ -126,8 +130,31 @@ def impl_run(c):
     pushed = []
     old = ft.EventStack.pushEvent
     ft.EventStack.pushEvent = classmethod(lambda cls_, rec: pushed.append(rec))
-    agent = SimpleNamespace(propagate_event_queue=[], _time=ScenarioTime(float(c["late"])))
+    from resonaate.data.events import ScheduledFiniteBurnEvent, ScheduledFiniteManeuverEvent
+    from resonaate.physics.time.stardate import datetimeToJulianDate
+
+    agent = SimpleNamespace(propagate_event_queue=[], _time=ScenarioTime(float(c["late"])), time=ScenarioTime(float(c["late"])), simulation_id=10001,
+                            julian_date_start=datetimeToJulianDate(START))
+    agent.appendPropagateEvent = lambda ev: Agent.appendPropagateEvent(agent, ev)
+    kinds = [c["thrust"]] + ([c["thrust2"]] if "s2" in c else [])
+    if c.get("queue") == "rev":
+        kinds.reverse()
+
+    def data_event(bs, be, kind):
+        """the database row of the burn, as the scenario configuration creates it; the real handleEvent turns it into the propagator's event"""
+        a, b = datetimeToJulianDate(START + timedelta(seconds=bs)), datetimeToJulianDate(START + timedelta(seconds=be))
+        base = dict(scope="agent_propagation", scope_instance_id=10001, start_time_jd=float(a), end_time_jd=float(b), planned=False)
+        if kind == "eci":
+            return ScheduledFiniteBurnEvent(event_type="finite_burn", acc_vec_0=0.0, acc_vec_1=2e-5, acc_vec_2=1e-5, thrust_frame="eci", **base)
+        if kind == "ntw":
+            return ScheduledFiniteBurnEvent(event_type="finite_burn", acc_vec_0=0.0, acc_vec_1=2e-5, acc_vec_2=0.0, thrust_frame="ntw", **base)
+        return ScheduledFiniteManeuverEvent(event_type="finite_maneuver", maneuver_mag=2e-5, maneuver_type="spiral" if kind == "spiral" else "plane_change", **base)
+
+    rows = [data_event(b[0], b[1], kd) for b, kd in zip(burns, kinds)]
+    seen_times = {}
     x = x0_of(c["orbit"]).copy()
+    xb0 = x0_of(c["orbit"]).copy() * np.array([1.0, 1.0, 1.0, 1.0, 1.0, -1.0])
+    xb = xb0.copy()
     switches = []
     # every callback of every burn, in the order in which the propagator makes them: (call, burn index, time, thrust installed?)
     callbacks = []
@@ -147,10 +174,13 @@ def impl_run(c):
         for k in range(1, N + 1):
             t0, t1 = c["late"] + (k - 1) * dt, c["late"] + k * dt
             # the data event is relevant in every step its interval overlaps (C01): each such step appends an equal event object
-            for bs, be, bf, bEv in burns:
+            agent._time = agent.time = ScenarioTime(t0)
+            for j, (bs, be, bf, bEv) in enumerate(burns):
                 if bs <= t1 and t0 < be:
-                    agent.propagate_event_queue.append(bEv(ScenarioTime(bs), ScenarioTime(be), bf, 10001))
-            agent._time = ScenarioTime(t0)
+                    rows[j].handleEvent(agent)
+            for ev in agent.propagate_event_queue:
+                j = min(range(len(burns)), key=lambda q: abs(float(ev.start_time) - burns[q][0]))
+                seen_times.setdefault(j, (float(ev.start_time), float(ev.end_time)))
             Agent.prunePropagateEvents(agent)
             n0 = len(pushed)
             step_now[0] = k
@@ -163,8 +193,13 @@ def impl_run(c):
                 if m:
                     switches.append((k, "off" if m.group(1) else "on", float(m.group(2))))
             on_end = bool(dyn.finite_thrust)
-            ends.append(next((j for j, b in enumerate(burns) if dyn.finite_thrust is b[2]), "?") if on_end else "off")
+            owner = next((ev for ev in agent.propagate_event_queue if ev.thrust_func is dyn.finite_thrust), None)
+            ends.append(("?" if owner is None else min(range(len(burns)), key=lambda q: abs(float(owner.start_time) - burns[q][0]))) if on_end else "off")
             switches.append((k, "call-end-on" if on_end else "call-end-off", float(t1)))
+            # a second satellite that never burns, propagated by the same dynamics object right after the first (nothing queued): it coasts
+            n1 = len(pushed)
+            xb = dyn.propagate(ScenarioTime(t0), ScenarioTime(t1), xb, scheduled_events=[])
+            del pushed[n1:]
     finally:
         ft.EventStack.pushEvent = old
         ft.ScheduledFiniteThrust.getStateChangeCallback = orig_cb
@@ -176,6 +211,7 @@ def impl_run(c):
     for bs, be, bf, _ in sorted(burns, key=lambda b: b[0]):
         if bs > t_now:
             y = ref.propagate(ScenarioTime(t_now), ScenarioTime(bs), y)
+        bs = max(bs, t_now)  # a burn under way at the start of the run thrusts from the start
         ref.finite_thrust = bf
         sol = solve_ivp(partial(ref._differentialEquation, check_collision=False), (bs, be), y, method="RK45", rtol=ref.RELATIVE_TOL, atol=ref.ABSOLUTE_TOL)
         y = sol.y[:, -1]
@@ -183,9 +219,15 @@ def impl_run(c):
         t_now = be
     y = ref.propagate(ScenarioTime(t_now), ScenarioTime(T1), y) if t_now < T1 else y
     coast = make_dynamics(c["model"]).propagate(ScenarioTime(T0), ScenarioTime(T1), x0_of(c["orbit"]).copy())
+    fresh = make_dynamics(c["model"])
+    yb = xb0.copy()
+    for k in range(1, N + 1):
+        yb = fresh.propagate(ScenarioTime(c["late"] + (k - 1) * dt), ScenarioTime(c["late"] + k * dt), yb)
     return {"final": [float(v) for v in x], "ref": [float(v) for v in y], "coast": [float(v) for v in coast], "switches": switches,
+            "companion": [float(v) for v in xb], "companion_ref": [float(v) for v in yb],
             "callbacks": callbacks, "ends": ends, "queues": queues,
-            "burn_times": [(float(b[0]), float(b[1])) for b in burns]}
+            # the interval as the propagator was given it (the configured instants after their passage through Julian dates: +-25 microseconds)
+            "burn_times": [seen_times.get(j, (float(b[0]), float(b[1]))) for j, b in enumerate(burns)]}
 
 
 def intervals_from_switches(c, sw):
@@ -254,15 +296,21 @@ def oracle(run: Run, c, impl):
         second = f" followed by {c['thrust2']} thrust [{c['s2']},{c['e2']}] s" if "s2" in c else ""
         fails.append(("trajectory", f"{c['model']} {c['thrust']} thrust [{c['s']},{c['e']}] s{second} (+{c['late']}) with {c['dt']} s steps: final state differs from the reference "
                                     f"integration by {dvel:.3g} km/s / {dpos:.3g} km (thrust effect {effect:.3g} km/s); thrust was on for {on:.4f} s, configured {c['e'] - c['s']:.4f} s"))
+    if i["companion"] != i["companion_ref"]:
+        d = float(np.linalg.norm(np.array(i["companion"]) - np.array(i["companion_ref"])))
+        fails.append(("trajectory:companion", f"a satellite with nothing scheduled, propagated by the same dynamics object as the burning one, does not coast: its final state differs by {d:.3g} "
+                                              f"from the same propagation on an object that never saw a burn ({c['model']} {c['thrust']} thrust [{c['s']},{c['e']}] s, {c['dt']} s steps)"))
     return fails
 
 
 def run_cases(run: Run, cs):
     impls = [guarded(impl_run, c) for c in cs]
     lines = []
-    for c in cs:
+    for c, i in zip(cs, impls):
         ts = [Fraction(c["late"]) + Fraction(c["dt"]) * k for k in range(c["N"] + 1)]
-        lines.append(f"burn.calls phaseSwitch {fmt(Fraction(c['s']) + c['late'])} {fmt(Fraction(c['e']) + c['late'])} {len(ts)} " + " ".join(fmt(t) for t in ts))
+        # the interval as the propagator received it from the real handleEvent (the configured instants pass through Julian dates: +-25 microseconds)
+        bs, be = (Fraction(i[1]["burn_times"][0][0]), Fraction(i[1]["burn_times"][0][1])) if (i[0] == "ok" and "s2" not in c) else (Fraction(c["s"]) + c["late"], Fraction(c["e"]) + c["late"])
+        lines.append(f"burn.calls phaseSwitch {fmt(bs)} {fmt(be)} {len(ts)} " + " ".join(fmt(t) for t in ts))
     # the one-slot model of all the agent's burns: the callbacks of every call, in order, and the slot at the end of the call
     spans = []
     for c, i in zip(cs, impls):
